@@ -1,18 +1,14 @@
 #!/bin/bash
-# MANIFEST.setup_cmd: build every check once so that the Go build cache is warm.
-# Everything is built from files on disk; no network.
+# MANIFEST.setup_cmd: build every check once (through the same path the checks
+# use, overlays included) so that the Go build cache is warm. Everything is
+# built from files on disk; no network.
 export GOFLAGS=-mod=mod GOPROXY=off GOSUMDB=off GOTOOLCHAIN=local
 cd "$(dirname "$0")" || exit 1
 mkdir -p .build evidence replay
 rc=0
 go build ./mc/... ./instr/... 2>&1 || rc=1
-for d in checks/*/; do
-  lc=$(basename "$d")
-  ov=()
-  if [ -x "$d/overlay.sh" ]; then
-    "$d/overlay.sh" ".build/$lc-overlay.json" > ".build/$lc-overlay.log" 2>&1 || { cat ".build/$lc-overlay.log"; rc=1; continue; }
-    ov=(-overlay ".build/$lc-overlay.json")
-  fi
-  go build -tags verif "${ov[@]}" -o ".build/$lc" "./$d" || rc=1
+for d in checks/c[0-9][0-9]/; do
+  id=$(basename "$d" | tr 'a-z' 'A-Z')
+  bin/vcheck "$id" build || rc=1
 done
 exit $rc
